@@ -16,7 +16,7 @@ var c06Pool = []string{
 	"-1.0", "(0.0/0.0)", "(1.0/0.0)",
 	`""`, `"0"`, `"1"`, `"-1"`, `"1000000"`, `"1e6"`, `"1.0"`, `"0x10"`, `"010"`, `"-010"`, `"0b11"`, `"0o17"`, `"08"`, `" 1"`, `"1 "`, `"abc"`, `"true"`, `"false"`, `"nil"`,
 	`"9007199254740993"`, `"9007199254740992"`, `"0.5"`, `"+1"`, `"1_000"`, `"Inf"`, `"NaN"`, `"1e400"`, `"0x1p4"`, `"1_0"`, `"9223372036854775808"`, `"1e-400"`, `"inf"`, `"Infinity"`, `"16.000000000000000001"`,
-	"[]", "[1]", "[1, 2]", "[[1]]", "[1.0]", `["1"]`, "[nil]", "{}", `{"a": 1}`, `{"a": 1.0}`, `{"a": [1]}`, `{"b": 1}`, "[true]", "[0]",
+	"[]", "[1]", "[1, 2]", "[[1]]", "[1.0]", `["1"]`, "[nil]", "{}", `{"a": 1}`, `{"a": 1.0}`, `{"a": [1]}`, `{"b": 1}`, "[true]", "[0]", `{"a": nil}`, `{"b": nil}`, `{"a": nil, "c": 1}`, `{"b": nil, "c": 1}`, `[nil, 1]`, `[1, nil]`,
 }
 
 const c06Prelude = "func sw(x, y) { switch x {\ncase y: return true\n}; return false }\n"
@@ -27,7 +27,7 @@ func c06Program(a, b string) string {
 
 // containers that share storage: views of one list at the same and at different offsets and lengths,
 // beside fresh lists with the same contents - equality is structural, never a matter of identity
-var c06Shared = []string{"sa", "sa[:2]", "sa[:0]", "sa[1:]", "sa[0:3]", "sa[:1]", "[1, 2]", "[1, 2, 3]", "[]", "[2, 3]", "[1]", "sm", `{"a": 1}`, "[sa]", "[sa[:2]]", "[[1, 2]]"}
+var c06Shared = []string{"sa", "sa[:2]", "sa[:0]", "sa[1:]", "sa[0:3]", "sa[:1]", "[1, 2]", "[1, 2, 3]", "[]", "[2, 3]", "[1]", "sm", `{"a": 1}`, "[sa]", "[sa[:2]]", "[[1, 2]]", "sn", "[(0.0/0.0)]", "[sn]"}
 
 func c06Product() []string {
 	var out []string
@@ -38,7 +38,7 @@ func c06Product() []string {
 	}
 	for _, a := range c06Shared {
 		for _, b := range c06Shared {
-			out = append(out, "sa = [1, 2, 3]; sm = {\"a\": 1}\n"+c06Program(a, b))
+			out = append(out, "sa = [1, 2, 3]; sm = {\"a\": 1}; sn = [(0.0/0.0)]\n"+c06Program(a, b))
 		}
 	}
 	return out
